@@ -52,6 +52,9 @@ var cases = []tcase{
 		{"logger.go", "\treturn &Logger{l.h.WithAttrs(argsToAttrs(args))}", "\tl.h = l.h.WithAttrs(argsToAttrs(args))\n\treturn l"}}, nil, "chain", "json:4"},
 	{"N3 slice-typed context field handed on unclipped", []edit{
 		{"text_handler.go", "\tgroupPrefix  string", "\tgroupPrefix  []byte"}}, nil, "chain", "text:0"},
+	{"C03e preformatted taken from a pooled buffer", []edit{
+		{"nano_handler.go", "\th2 := h.clone()\n\tfor _, a := range attrs {\n\t\tappendNanoValue(&h2.preformatted, a.Value, h.Options.colorful)\n\t}\n\treturn h2",
+			"\tbuf := newBuffer()\n\tdefer freeBuffer(buf)\n\t*buf = append(*buf, h.preformatted...)\n\tfor _, a := range attrs {\n\t\tappendNanoValue(buf, a.Value, h.Options.colorful)\n\t}\n\th2 := h.clone()\n\th2.preformatted = slices.Clip(*buf)\n\treturn h2"}}, nil, "chain", "unrec"},
 	{"clip removed", []edit{
 		{"nano_handler.go", "preformatted: slices.Clip(h.preformatted),", "preformatted: h.preformatted,"}}, nil, "chain", "nano:0"},
 	{"new mutex in clone", []edit{
